@@ -230,6 +230,33 @@ def run(prog: Program, rep, tier: str) -> None:
             else:
                 rep.fail("certain-crash-attribute", fi.qualname, _stmt_text(fi, n), f"VIOLATED: `{U(n)[:60]}`: no class in {sorted(t.name for t in ts)} defines `{n.func.attr}` (AttributeError when executed)", fi.loc(n))
     rep.pin("method calls on receivers of certain repo type", n_attr, 150)
+    # loads of self.<attr> that no class of the hierarchy defines
+    referenced = set()  # method / property names that are used as an attribute somewhere
+    for f in prog.iter_functions():
+        for n in own_nodes(f.node):
+            if isinstance(n, ast.Attribute):
+                referenced.add(n.attr)
+    n_self = 0
+    for fi in funcs:
+        cls = fi.cls
+        if cls is None:
+            continue
+        names = _attr_names(prog, cls)
+        if names is None:
+            continue
+        sub_names = set()
+        for c in prog.all_subclasses(cls, include_self=False):
+            sub_names |= (_attr_names(prog, c) or set())
+        for n in own_nodes(fi.node):
+            if is_self_attr(n) and isinstance(n.ctx, ast.Load):
+                n_self += 1
+                if n.attr in names or n.attr in sub_names or n.attr.startswith("__"):
+                    continue
+                if fi.name not in referenced:
+                    rep.note(f"latent: {fi.loc(n)} `{U(n)}` is undefined, but {fi.short} is never referenced anywhere (dead code)")
+                    continue
+                rep.fail("certain-crash-attribute", fi.qualname, _stmt_text(fi, n), f"VIOLATED: `{U(n)}`: no class in the hierarchy of {cls.name} defines `{n.attr}` (AttributeError when executed)", fi.loc(n))
+    rep.pin("self attribute loads examined", n_self, 400)
 
     # ---- (2) raise inventory ------------------------------------------------------------------------------
     x = ExcFlow(prog)
@@ -291,6 +318,40 @@ def run(prog: Program, rep, tier: str) -> None:
     rep.extra["asserts_data_dependent"] = len(data_dep)
     rep.undecided += data_dep[:80]
     domain_guards(prog, rep)
+
+
+def thorough(prog: Program, rep) -> None:
+    """E8 cross-reference: mypy (part of the repository's own dev environment) as an independent resolver.  Every `call-arg`
+    diagnostic inside in-scope modules is a certain TypeError when the line runs; it must already be among the arity findings."""
+    import os, re, subprocess
+    from ..model import REPO
+    repo = os.environ.get("PGF_REPO") or REPO
+    try:
+        r = subprocess.run(["/venv/bin/python", "-m", "mypy", "pygradflow", "--check-untyped-defs", "--no-incremental", "--cache-dir", os.devnull,
+                            "--ignore-missing-imports", "--no-error-summary", "--show-error-codes"], cwd=repo, capture_output=True, text=True, timeout=600)
+    except Exception as ex:
+        rep.note(f"mypy cross-reference not available: {ex}")
+        return
+    mine = {(f.loc.split(":")[0], f.loc.split(":")[1] if ":" in f.loc else "") for f in rep.findings if f.rule == "certain-crash-arity"}
+    n = 0
+    extra = []
+    for line in r.stdout.splitlines():
+        m = re.match(r"(pygradflow/[^:]+):(\d+): error: (.*)\[call-arg\]", line)
+        if not m:
+            continue
+        path, ln, msg = m.group(1), m.group(2), m.group(3)
+        modname = path[:-3].replace("/", ".")
+        if any(modname == p or modname.startswith(p + ".") for p in prog.OUT_OF_SCOPE) or "FixedActiveSet" in msg:
+            continue
+        n += 1
+        if (path, ln) not in mine:
+            extra.append((path, ln, msg.strip()))
+    for path, ln, msg in extra:
+        rep.fail("certain-crash-arity-mypy", path, f"{path}: {msg}", f"VIOLATED: mypy reports a call that cannot succeed ({msg}) which the arity rule did not resolve", f"{path}:{ln}")
+    rep.extra["mypy_call_arg_in_scope"] = n
+    rep.extra["mypy_other_diagnostics"] = sum(1 for l in r.stdout.splitlines() if ": error:" in l) - n
+    if not extra:
+        rep.ok("certain-crash-arity-mypy", "mypy --check-untyped-defs", f"{n} call-arg diagnostics in scope, all already reported by the arity rule")
 
 
 def _stmt_text(fi: FuncInfo, node: ast.AST) -> str:
